@@ -28,6 +28,7 @@ DEFAULT_OPTS = {
     "cut_fields": ["c", "b"],
     "root": None,  # force a root primitive
     "count_transform": 0.0,
+    "count_same_transform": 0.0,
 }
 
 
@@ -173,6 +174,10 @@ def gen_spec(rng, opts=None, depth=None, budget=None, counter=None, force=None):
     if p == "Count":
         if opts["count_transform"] and rng.chance(opts["count_transform"]):
             s["transform"] = "sq"
+        elif opts.get("count_same_transform") and rng.chance(opts["count_same_transform"]):
+            # a user-supplied transform that returns its argument: same content as a plain Count, but not the
+            # library's own `identity` object, so none of the `transform is identity` shortcuts is taken
+            s["transform"] = "same"
         return s
     params = _gen_params(rng, p, opts)
     s.update(params)
@@ -385,6 +390,8 @@ def build(s, _ctr=None, refs=None, qreg=None):
             return hg.Count(qreg[key])
         if s.get("transform") == "sq":
             return hg.Count(eval("lambda w: w * w", {}))
+        if s.get("transform") == "same":
+            return hg.Count(eval("lambda w: w", {}))
         return hg.Count()
     q = _mk_q(s["q"], node, qreg) if "q" in s else None
     kw = {}
@@ -472,12 +479,21 @@ def build(s, _ctr=None, refs=None, qreg=None):
     if p == "Fraction":
         return hg.Fraction(q, **kw)
     if p in ("Label", "UntypedLabel"):
-        pairs = {k: build(c, _ctr, refs, qreg) for k, c in s["pairs"].items()}
-        return getattr(hg, p)(**pairs)
+        items = [(k, build(c, _ctr, refs, qreg)) for k, c in s["pairs"].items()]
+        # the same directory may be written down in another order by another task (BUILD_OPTS is set by World.build)
+        if BUILD_OPTS["label_order"] == "reversed":
+            items.reverse()
+        elif BUILD_OPTS["label_order"] == "sorted":
+            items.sort(key=lambda kv: kv[0])
+        return getattr(hg, p)(**dict(items))
     if p in ("Index", "Branch"):
         vals = [build(c, _ctr, refs, qreg) for c in s["values"]]
         return getattr(hg, p)(*vals)
     raise ValueError(p)
+
+
+BUILD_OPTS = {"label_order": "spec"}
+RECORD_KNOBS = {"int_column": None}  # set per run by the engine (swarm knob), read by gen_record
 
 
 # --------------------------------------------------------------------------- alphabets
@@ -548,6 +564,7 @@ AWKWARD_STRINGS = ["entries", "contentType", "binsAsDict", "bins", "nan", "inf",
 CUTS = [True, False, 1.0, 0.0, 0.5, 2.0, -1.0, float("nan"), 0.25]
 POS_WEIGHTS = [1.0, 1.0, 1.0, 0.5, 2.0, 0.25, 4.0, 1.5]
 ODD_WEIGHTS = [0.0, -1.0, float("nan"), -0.5]
+NEAR_ONE_WEIGHTS = [1.0, 1.0 + 2.0 ** -17, 1.0 - 2.0 ** -18, 1.0 + 2.0 ** -30]  # dyadic, closer to 1 than any sensible "is it 1?" tolerance
 
 
 def gen_record(rng, crit, opts=None):
@@ -573,19 +590,35 @@ def gen_record(rng, crit, opts=None):
         if isinstance(v, float) and v == v and abs(v) != math.inf:
             # (np.float32 is not used: a float32 quantity makes the library accumulate in single precision, which is
             # rounding, not a defect, and would need float32 tolerances)
-            kind = rng.pick(["int", "npf64", "npi64", "bool", "negzero"])
+            kind = rng.pick(["int", "npf64", "npi64", "bool", "negzero", "npi8", "npu8", "npi16", "npi32"])
             if kind == "int" and v == int(v):
                 rec[f] = int(v)
             elif kind == "npf64":
                 rec[f] = np.float64(v)
             elif kind == "npi64" and v == int(v):
                 rec[f] = np.int64(int(v))
+            elif kind in ("npi8", "npi16", "npi32") and v == int(v) and abs(v) < 100:
+                # narrow integer types (image data, counters): differences and products of two of them overflow easily
+                rec[f] = {"npi8": np.int8, "npi16": np.int16, "npi32": np.int32}[kind](int(v))
+            elif kind == "npu8" and v == int(v) and 0 <= v < 200:
+                rec[f] = np.uint8(int(v))
             elif kind == "npf32" and float(np.float32(v)) == v:
                 rec[f] = np.float32(v)
             elif kind == "bool" and v in (0.0, 1.0):
                 rec[f] = bool(v)
             elif kind == "negzero" and v == 0.0:
                 rec[f] = -0.0
+    col = RECORD_KNOBS.get("int_column")
+    if col and opts.get("exotic_types", True):
+        # the whole column x is integer-typed in this run (a uint8 image channel, an int16 ADC count, a Python int id)
+        import numpy as np
+
+        v = rec["x"]
+        if isinstance(v, float) and v == v and abs(v) != math.inf and v == int(v):
+            lo, hi, ty = {"npu8": (0, 255, np.uint8), "npi8": (-128, 127, np.int8), "npi16": (-2 ** 15, 2 ** 15 - 1, np.int16),
+                          "npi64": (-2 ** 62, 2 ** 62, np.int64), "int": (-2 ** 62, 2 ** 62, int)}[col]
+            if lo <= v <= hi:
+                rec["x"] = ty(int(v))
     rec["c"] = rng.pick(CUTS[2:]) if opts.get("numeric_cuts") else rng.pick(CUTS)
     rec["b"] = rng.chance(0.6)
     awk = opts.get("awkward_strings", 0.06)
